@@ -168,8 +168,9 @@ func (rt *Runtime) contextData() map[string]interface{} {
 func (rt *Runtime) plainData() map[string]interface{} {
 	v := rt.Variant
 	d := map[string]interface{}{
-		"rx": []string{"^a", "c!$", "^x|y$"}[v%3],
-		"n1": 3 + v, "n2": 7, "s1": "ab<c" + strings.Repeat("!", v), "s2": "x y", "b1": true, "b0": false,
+		"rx":  []string{"^a", "c!$", "^x|y$"}[v%3],
+		"f64": 1.5,
+		"n1":  3 + v, "n2": 7, "s1": "ab<c" + strings.Repeat("!", v), "s2": "x y", "b1": true, "b0": false,
 		"xs":  []int{4 + v, 5, 6},
 		"ss":  []string{"p", "q&"},
 		"mi":  map[string]int{"k1": 1, "k2": 2, "k3": 3, "k4": 4},
@@ -330,6 +331,9 @@ func (rt *Runtime) render() (out string, err error) {
 		}
 	}()
 	ctx := plush.NewContextWith(rt.contextData())
+	if plush.CacheEnabled {
+		return plush.Render(rt.Prog.Main, ctx)
+	}
 	t, err := plush.NewTemplate(rt.Prog.Main)
 	if err != nil {
 		return "", err
